@@ -124,8 +124,10 @@ def render_tree(case, src, logfile):
         L.append('    except NameError:')
         L.append('        pass')
         tag = 'n{}'.format(i)
-        L.append('_t = copy_file({!r}, {!r})'.format(
-            'out_' + tag + '.txt', 'in_' + tag + '.txt'))
+        L.append('_t = copy_file({!r}, {!r}, extra_deps=[{!r}])'.format(
+            'out_' + tag + '.txt', 'in_' + tag + '.txt',
+            'dep_' + tag + '.txt'))
+        sandbox.write_file(os.path.join(src, d, 'dep_' + tag + '.txt'), 'd\n')
         sandbox.write_file(os.path.join(src, d, 'in_' + tag + '.txt'), 'x\n')
         if node['up']:
             L.append('_u = build_step({!r}, cmd=["cp", build_step.input, '
@@ -259,6 +261,24 @@ def prop_submodules(rec):
                                         d, out, inp, sorted(
                                             (k, sorted(v)) for k, v in
                                             rel.items() if tag in k)), case)
+                dep = 'S:' + posixpath.join(d, 'dep_' + tag + '.txt')
+                if dep not in rel.get(out, set()):
+                    if d and 'S:dep_' + tag + '.txt' in rel.get(out, set()):
+                        # known finding: string extra_deps are resolved
+                        # against the top source directory
+                        rec.fail('sub/extra_deps-not-relative',
+                                 'extra_deps=[{!r}] in submodule {!r} became '
+                                 'a dependency on $(srcdir)/{} instead of '
+                                 '$(srcdir)/{}'.format(
+                                     'dep_' + tag + '.txt', d,
+                                     'dep_' + tag + '.txt', dep[2:]), case)
+                        rec.excluded()
+                    else:
+                        raise Violation('sub/paths-extra-deps', 'copy_file in '
+                                        '{!r}: expected dependency {}; the '
+                                        'Makefile has {}'.format(
+                                            d, dep, sorted(rel.get(out, []))),
+                                        case)
                 if node['up']:
                     out = 'B:' + posixpath.join(d, 'gen/up_' + tag + '.txt')
                     inp = 'S:' + posixpath.normpath(posixpath.join(
